@@ -422,7 +422,9 @@ class Representation(ObjectWithFields):
             origin_time = 0
             mod_segment = 1
             drift = 0
-            end = ref_duration_tc
+            # a static manifest lists each stored segment once: it must not
+            # wrap round to fill up to the duration of the timing reference
+            end = self.mediaDuration
         rv = []
         dur = 0
         s_node = SegmentTimelineElement(mod_segment=mod_segment)
